@@ -38,6 +38,14 @@ func (c07) Gen(r *hx.Run) {
 		"3 3 T150 sa:31 sb:32 Oa:1 ga Ob:2 gb W W gb ga gb", "3 3 T150 sa:31 sb:32 sc:33 Oa:1 ga Ob:2 gb Oc:0 gc W W ga gb gc", "3 3 T300 sa:31 Oa:1 ga Oa:2 ga W W W ga ga",
 		"3 3 T400 sa:31 Oa:1 ga W W ga ga", "3 3 T400 sa:31 sb:32 Oa:1 Ob:2 ga W gb W ga gb", "3 3 T400 sa:31 Oa:2 ga W ga Oa:0 ga W W ga",
 	}
+	// connections to two nodes are lost while a connect to a third one is pending (it neither succeeds nor is refused)
+	kb := keysByNode()
+	for _, p := range [][3]int{{0, 1, 2}, {1, 2, 0}, {0, 2, 1}} {
+		a, b, c := kb[p[0]][0], kb[p[1]][0], kb[p[2]][0]
+		basic = append(basic,
+			fmt.Sprintf("3 3 W s%s:31 s%s:32 s%s:33 H%d { g%s W Z%d Z%d } W g%s g%s g%s g%s U%d W g%s", a, b, c, p[2], c, p[0], p[1], a, b, a, b, p[2], c),
+			fmt.Sprintf("3 3 W s%s:31 s%s:32 H%d { s%s:34 W Z%d W Z%d } g%s g%s U%d W g%s g%s", a, b, p[2], c, p[1], p[0], b, a, p[2], c, a))
+	}
 	for _, b := range basic {
 		r.Do("c07.cl "+b, true, "basic")
 	}
